@@ -23,8 +23,8 @@ typedef struct HState {
 	char failmsg[300];
 } HState;
 
-#define NSTART 9
-static const char *start_name[NSTART] = { "empty", "1x1", "testsuite3x2", "ranged2x2", "degenerate3x3", "infeasible2x2", "singleton3x3", "mip3x2-read", "slackrows2x2" };
+#define NSTART 10
+static const char *start_name[NSTART] = { "empty", "1x1", "testsuite3x2", "ranged2x2", "degenerate3x3", "infeasible2x2", "singleton3x3", "mip3x2-read", "slackrows2x2", "slackends3x2" };
 
 static void Q (mpq_t q, const char *s) { q_set_str (q, s); }
 static void m_col (RefLP * M, const char *obj, const char *lo, const char *up, const char *name)
@@ -71,6 +71,13 @@ static RefLP *make_start (int s)
 		m_col (M, "1", "0", NULL, "x"); m_col (M, "0", "0", NULL, "y");
 		const char *r1[] = { "1", "1" };
 		m_row (M, 'L', "1", NULL, "c1", r1); m_row (M, 'G', "2", NULL, "c2", r1); return M;
+	}
+	case 9: {
+		/* first and last row slack, middle row binding: deleting rows {last, first} in one call keeps the cached solution and must re-align it */
+		M = ref_new (REF_MIN);
+		m_col (M, "1", "1", NULL, "x"); m_col (M, "1", "1", "6", "y");
+		const char *r1[] = { "1", "1" }, *r2[] = { "1", "2" }, *r3[] = { "1", "-1" };
+		m_row (M, 'L', "10", NULL, "c1", r1); m_row (M, 'G', "4", NULL, "c2", r2); m_row (M, 'G', "-5", NULL, "c3", r3); return M;
 	}
 	case 8: {
 		/* both rows are slack (basic) at the optimum: deleting all rows of the solved problem keeps basis and cached solution */
